@@ -13,7 +13,7 @@ RULE = ('text: lines "id SEP name [SEP anything]" joined by \\n or \\r\\n, with/
         'with/without 0x/0X, either case, leading zeros; SEP = runs of spaces/tabs; names without whitespace characters '
         '(ASCII and unicode); duplicate ids (last wins) and duplicate names; trailing comments of printable text. Oracle: '
         'from_trace_codes_text / from_trace_codes_file == dict built by a plain loop over the generated lines, also when the same text is '
-        'parsed again after the caller edited the first mapping. '
+        'parsed again after the caller edited the first mapping; big_file: a table of 70000 lines (more than 2 MiB) whose ids repeat 50000 lines later. '
         'table: event streams from the scenario builder, written as a v2 file and decoded through PyKdebugParser with a '
         'supplied table: (a) renumbering: the stream re-encoded under an injective renumbering sigma (new ids partly '
         'colliding with bundled ids of OTHER names, partly moved into class 7 and its subclasses 0x0700/0x0701) and decoded under sigma(T) gives the same trace texts, and the '
@@ -99,6 +99,35 @@ def prop_text(ctx, case):
     ctx.note(text, nontrivial=len(set(ids)) < len(ids) or any(l[5] for l in lines),
              classes=['dup-id' if len(set(ids)) < len(ids) else 'unique-ids', 'comments' if any(l[5] is not None for l in lines) else 'plain',
                       'crlf' if case['eol'] == '\r\n' else 'lf'])
+
+
+def prop_big_file(ctx, case):
+    """a table file of megabytes in which ids come back hundreds of thousands of bytes later: the last occurrence wins"""
+    from pykdebugparser.trace_codes import from_trace_codes_file, from_trace_codes_text
+    n, m, seed = case['lines'], case['ids'], case['seed']
+    rows, expected = [], {}
+    for k in range(n):
+        ident = ((k % m) * 4 + (seed % 7) * 0x1000000) & 0xffffffff
+        name = f'name_{k}_{"x" * (8 + (k + seed) % 24)}'
+        rows.append(f'{ident:#x}\t{name}')
+        expected[ident] = name
+    text = '\n'.join(rows) + '\n'
+    d = tempfile.mkdtemp(prefix='c19-', dir=os.environ.get('TMPDIR', '/tmp'))
+    try:
+        path = os.path.join(d, 'trace.codes')
+        with open(path, 'w', newline='') as f:
+            f.write(text)
+        got = guard(from_trace_codes_file, path)
+    finally:
+        import shutil
+        shutil.rmtree(d, ignore_errors=True)
+    got2 = guard(from_trace_codes_text, text)
+    for label, g in (('from_trace_codes_file', got), ('from_trace_codes_text', got2)):
+        if dict(g) != expected:
+            diff = [(hex(k), g.get(k), expected.get(k)) for k in list(expected)[:m] if g.get(k) != expected.get(k)][:3]
+            raise Violation('big-table-mapping', f'{label} on a table of {n} lines ({len(text)} bytes, ids repeat every {m} lines): (id, got, expected) {diff}, '
+                                                 f'{len(g)} ids instead of {len(expected)}')
+    ctx.note(['big', n, m, seed], nontrivial=True, classes=[f'table-bytes:{len(text) >> 20}MiB+'])
 
 
 # ----------------------------------------------------------------------------- supplied tables
@@ -227,10 +256,13 @@ def prop_table(ctx, case):
                       'traces' if base_traces else 'no-traces'])
 
 
-PROPS = {'text': prop_text, 'table': prop_table}
+PROPS = {'text': prop_text, 'table': prop_table, 'big_file': prop_big_file}
 
 
 def run(ctx):
     ctx.run_given('text', text_case(), prop_text, ctx.n(1000, 15000))
+    if ctx.shard == 0:
+        bigs = [{'lines': n, 'ids': m, 'seed': ctx.seed + k} for k, (n, m) in enumerate([(70000, 50000)] if ctx.quick else [(70000, 50000), (150000, 149000), (40000, 3)])]
+        ctx.run_enum('big_file', bigs, prop_big_file, exhaustive_label='a table of 70000 lines (2 MiB+) whose ids repeat 50000 lines later')
     strat = st.fixed_dictionaries({'ops': st.lists(SC.op_strategy(), min_size=1, max_size=6), 'seed': S.u64})
     ctx.run_given('table', strat, prop_table, ctx.n(300, 4000))
